@@ -9,6 +9,7 @@ Step(r) == \/ r.ev = "reset" /\ reg' = 0 /\ re' = FALSE /\ depth' = 0 /\ act' = 
            \/ r.ev = "register" /\ Register(r.w, r.re) /\ Matches(r)
            \/ r.ev = "wake" /\ Wake /\ Matches(r)
            \/ r.ev = "take" /\ Take /\ Matches(r)
+           \/ r.ev = "teardown" /\ r.res = "" /\ UNCHANGED vars   \* dropping every waker never panics
 TInit == Init /\ l = 0
 TNext == l < Len(Rec) /\ l' = l + 1 /\ Step(R)
 TSpec == TInit /\ [][TNext]_tvars
